@@ -60,6 +60,9 @@ def shards(tier, seed):
             sh.append(dict(stratum='d=4 pqr: grade blocks, all clauses + rp', cfgs=[spaces.cfg_pqr(*t)], rp=['G']))
         sh.append(dict(stratum='named algebras', cfgs=[spaces.NAMED['3DPGA']], rp=['S', 2]))
         sh.append(dict(stratum='named algebras', cfgs=[spaces.NAMED['STAP']], ops=['B']))
+    # cross-algebra histories: algebras of equal dimension and different metric one after the other in one process, also in reverse order
+    for d in (2, 3):
+        sh.append(dict(stratum='all signature orderings of d=2,3 in one process in reverse order (blade level)', cfgs=[spaces.cfg_sig(s) for s in reversed(spaces.sig(d))], ops=['B']))
     return sh
 
 
